@@ -51,7 +51,8 @@ def atom_specs(tier):
     out += [("python_full_version", ">=", "3.8", False), ("python_full_version", "<", "3.8", False),
             ("python_full_version", "~=", "3.7.2", False), ("python_full_version", "==", "3.7.*", False),
             ("python_full_version", "!=", "3.7.*", False), ("python_full_version", ">", "3.7.2", True),
-            ("python_full_version", "<", "4.0", False)]
+            ("python_full_version", "<", "4.0", False),
+            ("python_full_version", "<", "3.7.2", True), ("python_full_version", ">=", "3.8.0", True), ("python_full_version", "<=", "3.7.2", True)]
     if tier == "thorough":
         for op in ("==", "!=", "in", "not in"):
             out.append(("os_name", op, "ba", False))
